@@ -116,18 +116,18 @@ def check(run):
             probs, header, source = G.validate_program(run, sc, f"prog{t}.cse_{'on' if cse else 'off'}", cse=cse, prefix="C02")
             for ob, p in probs[:2]:
                 confirmed = True
-                run.findings.append(Finding(ob.name, p.split(":")[0].split(".")[0][:40], f"program shape n,c,k,sensors={shp} (cse={cse}): {p}", {"language": "c++", "inputs": {"shape": list(shp), "seed": run.seed + 31 * t, "cse": cse, "transcendental": t % 4 == 3, "share_reading": True, "rational": t % 3 == 1}, "model_definition": sc.describe()}, confirmed))
+                run.findings.append(Finding(ob.name, p.split(":")[0].split(".")[0][:40], f"program shape n,c,k,sensors={shp} (cse={cse}): {p}", {"language": "c++", "inputs": {"shape": list(shp), "seed": run.seed + 31 * t, "cse": cse, "transcendental": t % 4 == 3, "share_reading": True, "rational": t % 3 == 1, "nonsmooth": t % 5 == 2}, "model_definition": sc.describe()}, confirmed))
             if t < 2 and cse:
                 run.native_runs += 1
                 okc, err = cppgen.syntax_check(header, source)
                 ob = run.prove(f"C02.cxx.prog{t}.compiles_against_standin", [], z3.BoolVal(okc), function=G.FN)
                 if not okc:
-                    run.findings.append(Finding(ob.name, "compile", f"generated header/source do not compile (stand-in Eigen): {err[-400:]}", {"language": "c++", "inputs": {"shape": list(shp), "seed": run.seed + 31 * t, "cse": cse, "transcendental": t % 4 == 3, "share_reading": True, "rational": t % 3 == 1}}, True))
+                    run.findings.append(Finding(ob.name, "compile", f"generated header/source do not compile (stand-in Eigen): {err[-400:]}", {"language": "c++", "inputs": {"shape": list(shp), "seed": run.seed + 31 * t, "cse": cse, "transcendental": t % 4 == 3, "share_reading": True, "rational": t % 3 == 1, "nonsmooth": t % 5 == 2}}, True))
                 elif shp[3]:
                     run.native_runs += 1
                     for p in compile_and_run(sc, header, source)[:1]:
                         ob2 = run.prove(f"C02.cxx.prog{t}.compiled_values", [], z3.BoolVal(False), function=G.FN)
-                        run.findings.append(Finding(ob2.name, "run", p, {"language": "c++", "inputs": {"shape": list(shp), "seed": run.seed + 31 * t, "cse": cse, "transcendental": t % 4 == 3, "share_reading": True, "rational": t % 3 == 1}}, True))
+                        run.findings.append(Finding(ob2.name, "run", p, {"language": "c++", "inputs": {"shape": list(shp), "seed": run.seed + 31 * t, "cse": cse, "transcendental": t % 4 == 3, "share_reading": True, "rational": t % 3 == 1, "nonsmooth": t % 5 == 2}}, True))
             if len(samples) < 2:
                 samples.append({"program": sc.describe(), "generated_source_excerpt": source[:1200]})
     # plain (non-EKF) Model::model path
@@ -154,7 +154,7 @@ def replay_file(payload):
         print("replay C02: generator-level obligation without a concrete program (see the obligation's note)")
         return True
     shp = inp["shape"]
-    sc = scenarios.Scenario(shp[0], shp[1], shp[2], shp[3], seed=inp["seed"], transcendental=inp.get("transcendental", False), share_reading=inp.get("share_reading", False), rational=inp.get("rational", False))
+    sc = scenarios.Scenario(shp[0], shp[1], shp[2], shp[3], seed=inp["seed"], transcendental=inp.get("transcendental", False), share_reading=inp.get("share_reading", False), rational=inp.get("rational", False), nonsmooth=inp.get("nonsmooth", False))
     run = driver.PropertyRun("C02", "quick", 0)
     probs, h, s = G.validate_program(run, sc, "replay", cse=inp.get("cse", True), ekf=inp.get("ekf", True))
     print("replay C02:", [p for _, p in probs[:4]] or "generated functions equal the symbolic expressions")
